@@ -137,9 +137,33 @@ Theorem C03_dyn_end_list : forall f h rest, lenN h = 4 -> (0 < sx32 (unbe h))%Z 
 Proof. exact dyn_end_list. Qed.
 
 (* ---------------------------------------------------------------------------------------------- *)
+(* NESTING: every walker carries the number of lists / compounds it may still enter (Decoder.enter: at most
+   maxNestingDepth + 1 open at once, the constant is read from the source on every run).  A list or compound
+   met when the budget is used up is an ERROR - not a stack overflow (which Go cannot recover from), and not
+   the model's out-of-fuel outcome: the totality theorems above hold for inputs nested arbitrarily deep. *)
+Theorem C03_depth_limit : forall f id s, id = idList \/ id = idCompound ->
+  run_flat (dany (S f) 0 id) s = FErr eDepth /\ run_flat (dskip (S f) 0 id) s = FErr eDepth /\
+  run_flat (dtext (S f) 0 id) s = FErr eDepth /\ run_flat (ddyn (S f) 0 id) s = FErr eDepth /\
+  (forall t, t <> GAny -> t <> GMapAny -> id = idList -> run_flat (dty (S f) 0 t id) s = FErr eDepth).
+Proof. exact depth_exhausted. Qed.
+Theorem C03_depth_budget : max_open = 10001.
+Proof. reflexivity. Qed.
+(* k lists inside one another: `09 09 00000001` k times, then an empty list *)
+Fixpoint C03_nested (k : nat) : list N :=
+  match k with O => [0; 0; 0; 0; 0] | S k' => 9 :: 0 :: 0 :: 0 :: 1 :: C03_nested k' end.
+Example C03_ex_depth :   (* budget 3: three lists inside one another are read, four are refused *)
+  run_flat (dany 20 3 idList) (C03_nested 2) = FOk (AList [AList [AList []]]) [] /\
+  run_flat (dany 20 3 idList) (C03_nested 3) = FErr eDepth /\
+  run_flat (dskip 20 3 idList) (C03_nested 3) = FErr eDepth /\
+  run_flat (ddyn 20 3 idList) (C03_nested 3) = FErr eDepth /\
+  run_flat (dtext 20 3 idList) (C03_nested 3) = FErr eDepth /\
+  run_flat (dst 20 3 (SList (SList (SList (SList SAny)))) (YList []) idList) (C03_nested 3) = FErr eDepth.
+Proof. repeat split; vm_compute; reflexivity. Qed.
+
+(* ---------------------------------------------------------------------------------------------- *)
 (* A STRICT PREFIX of a well-formed document is never reported as decoded: every untyped target ... *)
 Theorem C03_prefix : forall f name t fuel k,
-  wf t -> name_ok name = true -> (length (payload t) < fuel)%nat -> (k < length (doc f name t))%nat ->
+  wf t -> nest_ok t -> name_ok name = true -> (length (payload t) < fuel)%nat -> (k < length (doc f name t))%nat ->
   let p := firstn k (doc f name t) in
   is_ok (run_flat (Decode f (dec_any fuel)) p) = false /\
   is_ok (run_flat (Decode f (dec_raw fuel)) p) = false /\
@@ -166,8 +190,8 @@ Proof. intros. eapply C03_prefix_any_target; eauto. intros. apply dec_st_robust.
 (* ---------------------------------------------------------------------------------------------- *)
 (* non-vacuity *)
 Example C03_ex_prefix_hyp :
-  wf C03_ex_tree /\ name_ok [114] = true /\ length (doc File [114] C03_ex_tree) = 105%nat.
-Proof. repeat split; vm_compute; reflexivity. Qed.
+  wf C03_ex_tree /\ nest_ok C03_ex_tree /\ name_ok [114] = true /\ length (doc File [114] C03_ex_tree) = 105%nat.
+Proof. repeat split; vm_compute; try reflexivity; discriminate. Qed.
 Example C03_ex_struct :
   exists v, run_flat (Decode File (dec_st 100 C03_ex_shape (zero C03_ex_shape))) (doc File [114] C03_ex_tree ++ [7])
             = FOk ([114], v) [7] /\ v <> zero C03_ex_shape.
@@ -196,6 +220,8 @@ Print Assumptions C03_negative_len_typed.
 Print Assumptions C03_unknown_tag.
 Print Assumptions C03_unknown_tag_typed.
 Print Assumptions C03_dyn_end_list.
+Print Assumptions C03_depth_limit.
+Print Assumptions C03_depth_budget.
 Print Assumptions C03_prefix.
 Print Assumptions C03_prefix_any_target.
 Print Assumptions C03_prefix_struct.
